@@ -303,6 +303,7 @@ def run_v2(ctx: Ctx, per_cause: int):
 
 
 def run(ctx: Ctx):
+    G.cap_violations(ctx)
     n = ctx.scale(10, 250)
     run_v1(ctx, n)
     run_v2(ctx, n)
